@@ -3,6 +3,7 @@ package main
 import (
 	"fmt"
 	"go/types"
+	"strconv"
 	"strings"
 
 	"golang.org/x/tools/go/packages"
@@ -27,7 +28,88 @@ func pack(res []Val) Val {
 	return Tuple(res)
 }
 
+// calleeName: the name a //verif:call-assert uses for this call.
+func calleeName(cc *ssa.CallCommon) string {
+	if cc.IsInvoke() {
+		return cc.Method.Name()
+	}
+	if f := cc.StaticCallee(); f != nil {
+		return originOf(f).Name()
+	}
+	return ""
+}
+
+// checkCallAsserts emits the call-site assertions registered for this call.
+func (E *Engine) checkCallAsserts(fr *Frame, st *State, cc *ssa.CallCommon, instr ssa.Instruction, recv Val, args []Val) {
+	cas := E.P.callAsserts[originOf(fr.fn)]
+	if len(cas) == 0 || fr.spec {
+		return
+	}
+	name := calleeName(cc)
+	if name == "" {
+		return
+	}
+	// ordinal of this call among the calls of that name
+	ord, idx := 0, -1
+	blk := instr.Block()
+	for _, b := range fr.fn.Blocks {
+		for i, in := range b.Instrs {
+			if in == instr {
+				idx = i
+				goto found
+			}
+			if ci, ok := in.(ssa.CallInstruction); ok && calleeName(ci.Common()) == name {
+				ord++
+			}
+		}
+	}
+found:
+	for _, ca := range cas {
+		if ca.callee != name || ca.ordinal != ord {
+			continue
+		}
+		var vals []Val
+		for _, p := range ca.fn.Params {
+			pn := p.Name()
+			var v Val
+			switch {
+			case pn == "recv":
+				v = recv
+			case strings.HasPrefix(pn, "arg") && len(pn) > 3 && pn[3] >= '0' && pn[3] <= '9':
+				n, _ := strconv.Atoi(pn[3:])
+				if n < len(args) {
+					v = args[n]
+				}
+			default:
+				v = E.resolveNameAt(fr, st, blk, idx, pn)
+			}
+			if v == nil {
+				E.fail("call-assert %s: cannot resolve %q at the call of %s in %s", ca.label, pn, name, fr.fn)
+			}
+			vals = append(vals, v)
+		}
+		nf := E.newFrame(ca.fn, fr, nil)
+		nf.spec = true
+		nf.ghost = true
+		sub := st.clone()
+		sub.reach = E.tb.True()
+		res, _ := E.execFunc(nf, sub, vals)
+		E.addObl(fr, st, "callsite", fmt.Sprintf("%s:%s@%d:%s", shortFn(fr.fn), name, ord, ca.label), res[0].(*Term), instr.Pos())
+	}
+}
+
 func (E *Engine) call(fr *Frame, st *State, cc *ssa.CallCommon, instr ssa.Instruction) Val {
+	if len(E.P.callAsserts[originOf(fr.fn)]) > 0 && !fr.spec {
+		var as []Val
+		for _, a := range cc.Args {
+			as = append(as, E.value(fr, a))
+		}
+		var recv Val
+		if cc.IsInvoke() {
+			recv = E.value(fr, cc.Value)
+		}
+		E.checkCallAsserts(fr, st, cc, instr, recv, as)
+	}
 	var args []Val
 	if cc.IsInvoke() {
 		recv := E.term(fr, cc.Value)
@@ -86,6 +168,16 @@ func (E *Engine) invoke(fr *Frame, st *State, recv *Term, cc *ssa.CallCommon, ar
 		}
 	}
 	name := cc.Method.Name()
+	if fr.useMode && fr.useIface != "" && fr.useIface == cc.Value.Type().String()+"."+name {
+		// the summarised step inside a trusted interface-method contract
+		if fr.oldSt != nil {
+			E.fail("interface contract %s calls its method more than once", fr.fn)
+		}
+		fr.oldSt = st.clone()
+		v := E.pureResult(fr, st, fr.useIface, cc.Signature().Results(), append([]Val{recv}, args...), instr)
+		fr.useResult = v
+		return v
+	}
 	if noEffectMethods[name] && isSyncLocker(cc.Value.Type()) {
 		E.note("sync primitives are correct and have no effect on verified state (no interleaving explored)")
 		return nil
@@ -96,6 +188,10 @@ func (E *Engine) invoke(fr *Frame, st *State, recv *Term, cc *ssa.CallCommon, ar
 	}
 	full := cc.Value.Type().String() + "." + name
 	if E.isNoEffect(full, cc.Method.Pkg()) {
+		return E.pureResult(fr, st, full, cc.Signature().Results(), append([]Val{recv}, args...), instr)
+	}
+	if E.P.pureMethods[full] {
+		E.note("trusted: interface method " + shortName(full) + " has no effect and returns a function of its receiver and arguments (//verif:pure-method)")
 		return E.pureResult(fr, st, full, cc.Signature().Results(), append([]Val{recv}, args...), instr)
 	}
 	return E.unknownCall(fr, st, "interface call "+full, cc.Signature().Results(), instr, args)
@@ -238,11 +334,11 @@ func (E *Engine) nondet(name string) bool {
 var noEffectPkgs = []string{
 	"istio.io/istio/pkg/log", "istio.io/istio/pkg/monitoring", "fmt", "strconv", "time", "sync", "sync/atomic", "errors",
 	"strings", "unicode", "unicode/utf8", "sort", "math", "bytes", "net/netip", "net", "path", "regexp",
-	"google.golang.org/grpc/codes", "google.golang.org/grpc/status", "go.uber.org/atomic",
+	"google.golang.org/grpc/codes", "google.golang.org/grpc/status", "google.golang.org/grpc/internal/status", "go.uber.org/atomic",
 	"istio.io/istio/pkg/env", "cmp", "slices", "maps", "hash", "github.com/cespare/xxhash/v2", "istio.io/istio/pkg/util/hash",
 	"google.golang.org/protobuf/types/known/wrapperspb", "google.golang.org/protobuf/types/known/durationpb",
 	"k8s.io/apimachinery/pkg/types", "k8s.io/apimachinery/pkg/labels", "istio.io/istio/pilot/pkg/util/protoconv",
-	"k8s.io/apimachinery/pkg/apis/meta/v1",
+	"k8s.io/apimachinery/pkg/apis/meta/v1", "istio.io/istio/pkg/spiffe", "istio.io/istio/pilot/pkg/model/credentials",
 }
 
 func (E *Engine) isNoEffect(name string, pkg *types.Package) bool {
@@ -439,6 +535,10 @@ func (E *Engine) external(fr *Frame, st *State, fn *ssa.Function, name string, a
 		E.note("getter methods of external types (Get*) are pure functions of their receiver")
 		return E.pureResult(fr, st, name, res, args, instr)
 	}
+	if isStringer(fn) {
+		E.note("String/Error methods of external types are pure functions of their receiver")
+		return E.pureResult(fr, st, name, res, args, instr)
+	}
 	var pkg *types.Package
 	if fn.Pkg != nil {
 		pkg = fn.Pkg.Pkg
@@ -522,6 +622,9 @@ func (E *Engine) useContract(fr *Frame, st *State, h *Harness, fn *ssa.Function,
 	if h.Target != nil {
 		hf.useTarget = originOf(h.Target)
 	}
+	if h.Kind == "iface-contract" {
+		hf.useIface = h.TargetS
+	}
 	hf.useSite = fmt.Sprintf("%s->%s@%s", shortFn(fr.fn), lastName(h.TargetS), E.callOrdinal(fr.fn, instr, h))
 	if len(args) != len(hbody.Params) {
 		E.fail("contract %s: harness has %d parameters, target is called with %d", h.Name, len(hbody.Params), len(args))
@@ -558,7 +661,9 @@ func (E *Engine) summarise(hf *Frame, st *State, body *ssa.Function, tenv TEnv, 
 		E.fail("contract harness %s calls its target more than once", hf.fn)
 	}
 	hf.oldSt = st.clone()
-	if len(body.Blocks) > 0 {
+	if h := E.P.contracts[originOf(body)]; h != nil && h.WritesNothing {
+		E.note("trusted frame: " + shortFn(body) + " is assumed to write no memory visible to its caller (//verif:writes-nothing)")
+	} else if len(body.Blocks) > 0 {
 		ws := E.writes(body, tenv)
 		E.havocKeys(st, ws, E.paramResolver(body, args))
 	} else {
